@@ -552,6 +552,39 @@ fn put_tris(o: &mut Out, mesh: &Mesh) {
     }
 }
 
+/// Witness predicate of the finding `C06-round-arc-subdivision-rounded-down`: some round join
+/// (arc = the turn angle) or round cap (two quarter arcs) of this input needs `n = ceil(arc/step)`
+/// chords for the tolerance but `round(log2 n)` subdivisions give fewer than `n` (n = 3, 5, 9, 10, 11, ...).
+/// Computed with a margin (lyon measures the arc with a polynomial atan2), so borderline inputs count as members.
+fn arc_rounded_down(span: f64, hw: f64, tol: f64) -> bool {
+    let t = tol.min(hw);
+    let step = 2.0 * ((hw - t) / hw).acos();
+    if !(step > 0.0) {
+        return true;
+    }
+    let ratio = span / step;
+    let margin = 1.0e-3 / step + 2.0e-3 * ratio;
+    [ratio - margin, ratio, ratio + margin].iter().any(|r| {
+        let n = r.ceil().max(0.0);
+        if n < 1.0 {
+            return false;
+        }
+        let k = n.log2().round();
+        2f64.powf(k) < n
+    })
+}
+
+fn has_rounded_down_arc(poly: &Poly, cfg: &Cfg) -> bool {
+    let hw = cfg.w as f64 * 0.5;
+    let tol = cfg.tol as f64;
+    let open = !poly.closed || poly.segments().len() <= 2;
+    (open && arc_rounded_down(std::f64::consts::FRAC_PI_2, hw, tol))
+        || poly.joins().iter().any(|(_, t0, t1)| {
+            let (_, span) = outer_wedge(*t0, *t1);
+            span > 1e-3 && arc_rounded_down(span, hw, tol)
+        })
+}
+
 #[derive(Clone, Copy, PartialEq)]
 enum Fam {
     Cover,
@@ -574,6 +607,7 @@ fn stroke_case(ctx: &mut Ctx, fam: Fam) {
         let max_segs = if round { 4 } else { 7 };
         let poly = gen_poly(rng, w, lattice, max_segs);
         let cfg = gen_cfg(rng, w, round);
+        let strict = rng.chance(1, 2);
         let mut args = Out::new();
         cfg.put(&mut args);
         args.b(poly.closed).u(poly.pts.len() as u64);
@@ -620,12 +654,22 @@ fn stroke_case(ctx: &mut Ctx, fam: Fam) {
                 Fam::Cover => ("stroke.rect", 2, inner_region(&poly, hw, None)),
                 Fam::Reach => ("stroke.reach", 3, outer_region(&poly, &cfg, eps, None)),
                 Fam::RoundIn => {
-                    let r = hw - tol - eps * hw;
+                    // inputs matching the witness predicate of the arc-subdivision finding: half of
+                    // them keep the stated demand under the finding's own clause, the other half
+                    // are checked against the flattening error that rounding down can produce at
+                    // most (2 x tolerance), so that any OTHER violation on such inputs is still reported
+                    let member = has_rounded_down_arc(&poly, &cfg);
+                    let (prefix, allowed) = match (member, strict) {
+                        (false, _) => ("stroke.round-inner", tol),
+                        (true, true) => ("stroke.round-inner.subdiv-rounded-down", tol),
+                        (true, false) => ("stroke.round-inner", 2.0 * tol),
+                    };
+                    let r = hw - allowed - eps * hw;
                     if r <= 0.05 * hw {
                         orc.skip("tolerance-exceeds-half-width");
                         return (CaseOut { imp: o, orcl: orc.verdict }, None);
                     }
-                    ("stroke.round-inner", 2, inner_region(&poly, r, Some((0.25 * tol).min(0.5 * r))))
+                    (prefix, 2, inner_region(&poly, r, Some((0.25 * tol).min(0.5 * r))))
                 }
                 Fam::RoundOut => ("stroke.round-outer", 3, outer_region(&poly, &cfg, eps, Some(0.5 * tol))),
             };
@@ -638,9 +682,151 @@ fn stroke_case(ctx: &mut Ctx, fam: Fam) {
     });
 }
 
+// ---------------------------------------------------------------------------------------------
+// numeric families: the component model of Model/Tess/StrokeQuad.lean against the real code
+
+/// `math_utils::compute_normal` through the `verif_stroke` hook.
+fn normal_case(ctx: &mut Ctx) {
+    ctx.case("normal:32", |rng| {
+        let kind = rng.below(5);
+        let (v1, v2, kn) = match kind {
+            0 => {
+                // lattice directions (not normalised: the function is modelled for any input)
+                let d = [(1.0, 0.0), (0.0, 1.0), (-1.0, 0.0), (0.0, -1.0), (1.0, 1.0), (-1.0, 1.0), (0.5, -0.5), (0.0, 0.0)];
+                (*rng.pick(&d), *rng.pick(&d), "lattice")
+            }
+            1 => {
+                // nearly opposite unit vectors: the `v12.square_length() < epsilon` guard
+                let a = rng.uniform(0.0, 6.28);
+                let e = rng.uniform(-0.02, 0.02);
+                (dir(a), dir(a + std::f64::consts::PI + e), "near-opposite")
+            }
+            2 => {
+                let a = rng.uniform(0.0, 6.28);
+                let e = rng.uniform(-1e-3, 1e-3);
+                (dir(a), dir(a + e), "near-straight")
+            }
+            _ => (dir(rng.uniform(0.0, 6.28)), dir(rng.uniform(0.0, 6.28)), "unit"),
+        };
+        let v1 = lyon_path::math::vector(v1.0 as f32, v1.1 as f32);
+        let v2 = lyon_path::math::vector(v2.0 as f32, v2.1 as f32);
+        let mut args = Out::new();
+        args.v(v1).v(v2);
+        (args, format!("normal {}", kn), move || {
+            let n = lyon_tessellation::verif_stroke::compute_normal(v1, v2);
+            let mut o = Out::new();
+            o.v(n);
+            let mut orc = Oracle::new();
+            // for unit tangents away from the guards the result is the miter vector:
+            // n . perp(v1) = 1 and |n|^2 = 2 / (1 + v1 . v2)
+            let c = (v1.dot(v2)) as f64;
+            let unit = ((v1.length() - 1.0).abs() < 1e-5) && ((v2.length() - 1.0).abs() < 1e-5);
+            if unit && c > -0.99 {
+                let n1 = lyon_path::math::vector(-v1.y, v1.x);
+                let d = n.dot(n1) as f64;
+                let l2 = n.square_length() as f64;
+                orc.check((d - 1.0).abs() < 1e-4, "compute_normal/offset", "generic", || format!("n.n1 = {}", d));
+                orc.check((l2 - 2.0 / (1.0 + c)).abs() < 1e-3 * (2.0 / (1.0 + c)), "compute_normal/length", "generic", || format!("|n|^2 = {} c = {}", l2, c));
+            }
+            CaseOut { imp: o, orcl: orc.verdict }
+        })
+    });
+}
+
+/// The whole mesh of an open two-segment polyline (non-round join, butt/square caps) against
+/// `StrokeQuad.stroke2`: vertex positions in emission order and triangle ids.
+fn stroke2_case(ctx: &mut Ctx) {
+    ctx.case("stroke2:32", |rng| {
+        let kind = rng.below(4);
+        let (w, pts, kn): (f64, [V; 3], &str) = match kind {
+            0 => {
+                // axis-aligned lattice: side points exactly representable
+                let w = *rng.pick(&[0.5, 1.0, 2.0]);
+                let a = (rng.range(-8, 8) as f64, rng.range(-8, 8) as f64);
+                let d = rng.below(4) as usize;
+                let dirs = [(1.0, 0.0), (0.0, 1.0), (-1.0, 0.0), (0.0, -1.0)];
+                let j = add(a, mul(dirs[d], rng.range(4, 12) as f64));
+                let d2 = (d + *rng.pick(&[0usize, 1, 3])) % 4;
+                let b = add(j, mul(dirs[d2], rng.range(4, 12) as f64));
+                (w, [a, j, b], "axis")
+            }
+            1 => {
+                // 8-direction lattice
+                let w = *rng.pick(&[0.5, 1.0, 2.0]);
+                let a = (rng.range(-8, 8) as f64, rng.range(-8, 8) as f64);
+                let dirs = [(1.0, 0.0), (1.0, 1.0), (0.0, 1.0), (-1.0, 1.0), (-1.0, 0.0), (-1.0, -1.0), (0.0, -1.0), (1.0, -1.0)];
+                let d = rng.below(8) as usize;
+                let j = add(a, mul(dirs[d], rng.range(6, 12) as f64));
+                let d2 = (d + *rng.pick(&[0usize, 1, 2, 3, 5, 6, 7])) % 8;
+                let b = add(j, mul(dirs[d2], rng.range(6, 12) as f64));
+                (w, [a, j, b], "diag")
+            }
+            2 => {
+                // no-fold regime, any angle up to 150 degrees
+                let w = 10f64.powf(rng.uniform(-1.0, 0.6));
+                let a = (rng.uniform(-20.0, 20.0), rng.uniform(-20.0, 20.0));
+                let h = rng.uniform(0.0, 6.28);
+                let j = add(a, mul(dir(h), w * rng.uniform(4.1, 12.0)));
+                let h2 = h + rng.uniform(-149.0f64, 149.0).to_radians();
+                let b = add(j, mul(dir(h2), w * rng.uniform(4.1, 12.0)));
+                (w, [a, j, b], "regime")
+            }
+            _ => {
+                // anything: short edges against the width, turns up to 179 degrees (fold branch)
+                let w = 10f64.powf(rng.uniform(-1.0, 0.6));
+                let a = (rng.uniform(-20.0, 20.0), rng.uniform(-20.0, 20.0));
+                let h = rng.uniform(0.0, 6.28);
+                let j = add(a, mul(dir(h), w * rng.uniform(0.4, 6.0)));
+                let h2 = h + rng.uniform(-179.0f64, 179.0).to_radians();
+                let b = add(j, mul(dir(h2), w * rng.uniform(0.4, 6.0)));
+                (w, [a, j, b], "any")
+            }
+        };
+        let poly = Poly { pts: pts.to_vec(), closed: false, kind: kn };
+        let cfg = Cfg {
+            w: w as f32,
+            join: *rng.pick(&[LineJoin::Miter, LineJoin::MiterClip, LineJoin::Bevel]),
+            cap1: *rng.pick(&[LineCap::Butt, LineCap::Square]),
+            cap2: *rng.pick(&[LineCap::Butt, LineCap::Square]),
+            ml: *rng.pick(&[1.0f32, 1.25, 2.0, 4.0]),
+            tol: 0.01,
+            entry: rng.below(4) as u8,
+        };
+        let mut args = Out::new();
+        for p in poly.f32pts() {
+            args.p(p);
+        }
+        args.f(cfg.w).f(cfg.ml).t(join_name(cfg.join)).t(cap_name(cfg.cap1)).t(cap_name(cfg.cap2));
+        let tag = format!("stroke2 {} {} {}/{} {}", kn, join_name(cfg.join), cap_name(cfg.cap1), cap_name(cfg.cap2), ENTRY[cfg.entry as usize]);
+        (args, tag, move || {
+            let mut mesh = Mesh::new();
+            let res = run_stroke(&poly, &cfg, &mut mesh);
+            let mut o = Out::new();
+            let mut orc = Oracle::new();
+            match res {
+                Err(e) => {
+                    o.t("err").t(&e.replace(' ', "_"));
+                    orc.check(false, "stroke/success", "generic", || format!("tessellation error {}", e));
+                }
+                Ok(()) => {
+                    o.t("ok").u(mesh.vertices.len() as u64).u((mesh.indices.len() / 3) as u64).t("v");
+                    for p in &mesh.vertices {
+                        o.p(*p);
+                    }
+                    o.t("t");
+                    for i in &mesh.indices {
+                        o.u(*i as u64);
+                    }
+                }
+            }
+            CaseOut { imp: o, orcl: orc.verdict }
+        })
+    });
+}
+
 fn main() {
     let mut ctx = Ctx::from_args("C06");
-    let n = ctx.n(60, 3000);
+    let n = ctx.n(150, 5000);
     for _ in 0..n {
         stroke_case(&mut ctx, Fam::Cover);
         stroke_case(&mut ctx, Fam::Reach);
@@ -648,6 +834,10 @@ fn main() {
         stroke_case(&mut ctx, Fam::Reach);
         stroke_case(&mut ctx, Fam::RoundIn);
         stroke_case(&mut ctx, Fam::RoundOut);
+        for _ in 0..4 {
+            stroke2_case(&mut ctx);
+            normal_case(&mut ctx);
+        }
     }
     ctx.finish();
 }
